@@ -277,6 +277,7 @@ def rebuild(inp):
     return info, mapping, dec_num(inp['T'])
 
 
+_CASE_NO = [0]
 PRE_ELEMENTAL = [False]     # toggled by the harnesses: evaluate once relative to the elements before the recorded evaluation
 
 
@@ -306,6 +307,15 @@ def run_case(info, mapping, T, set_name=SET, units=(), flags=(None,), full_lib=F
         impl = {'err': {'class': 'internal:' + type(e).__name__}}
     c.est = est
     if est is not None:
+        _CASE_NO[0] += 1
+        if _CASE_NO[0] % 2 == 0:
+            # the caller goes on using ITS dict after the estimate was made: the estimate must not follow it
+            try:
+                for k in list(groups):
+                    groups[k] = groups[k] * 3 + 1
+                groups['not a descriptor'] = 5
+            except Exception:
+                pass
         if PRE_ELEMENTAL[0] and has_mol:
             # an earlier request relative to the elements on the same estimate object must not change later plain values
             try:
@@ -317,9 +327,15 @@ def run_case(info, mapping, T, set_name=SET, units=(), flags=(None,), full_lib=F
         ok = eval_object(est, T, units, flags, info, names, has_mol, dim_pairs)
         ok['range'] = est.get_range()
         ok['n'] = len(est.correlations)
-        if hasattr(est, 'Xp_invXX_Xp'):
+        try:
+            has_q = hasattr(est, 'Xp_invXX_Xp')
+            qv = est.Xp_invXX_Xp if has_q else None
+        except Exception as e:
+            raise common.ImplFailure("reading an estimate's quadratic form x'Mx raises (after the caller went on using its own mapping dict)",
+                                     {'library': info.label, 'mapping': [[nm, str(n)] for nm, n in zip(names, counts)]}, e)
+        if has_q:
             import numpy as np
-            q = np.asarray(est.Xp_invXX_Xp)
+            q = np.asarray(qv)
             ok['uq'] = {'q': float(q.reshape(-1)[0]) if q.size == 1 else None, 'q_shape': list(q.shape), 'dof': est.dof}
         else:
             ok['uq'] = None
